@@ -46,7 +46,7 @@ Cof(a, i, j) == D(a, Nx(i), Nx(j)) * D(a, Pv(i), Pv(j)) - D(a, Nx(i), Pv(j)) * D
 Cofactors(a) == MkDyad(LAMBDA i, j : Cof(a, i, j))
 Adjugate(a)  == Transpose(Cofactors(a))
 Det(a)       == D(a,1,1) * Cof(a,1,1) + D(a,1,2) * Cof(a,1,2) + D(a,1,3) * Cof(a,1,3)
-MagSqDyad(a) == LET RECURSIVE S(_) S(k) == IF k = 0 THEN 0 ELSE a[k] * a[k] + S(k - 1) IN S(9)
+MagSqDyad(a) == a[1] * a[1] + a[2] * a[2] + a[3] * a[3] + a[4] * a[4] + a[5] * a[5] + a[6] * a[6] + a[7] * a[7] + a[8] * a[8] + a[9] * a[9]
 SymMagSq(s)  == MagSqDyad(SymEmbed(s))
 (* the inverse exists iff Det # 0 and then  inverse * Det = Adjugate  (stated without division) *)
 InverseDefined(a) == Det(a) # 0
